@@ -3,6 +3,7 @@
 import json, subprocess
 BASE = json.load(open('/root/.vp/BASELINE.json'))
 NA_FINAL = {
+    "C18": "JSON goes through encoding/json (reflection) and the table / configuration formats through fmt and strconv string conversion; neither is inside the SSA subset the VC generator and the bounded interpreter model, and string theory was rejected for the solvers (DESIGN §6).",
  "C13": "ulp-level accuracy of float64 special-function code against the true transcendental function is not expressible in real arithmetic with uninterpreted functions nor decidable in the FP theory (DESIGN §6).",
  "C15": "equality of the log-space forward/backward/Viterbi recursions with path enumeration needs induction over the sequence in a log-sum-exp semiring (AC reasoning over an uninterpreted operator), outside what the generator and the solvers can discharge (DESIGN §6).",
  "C16": "likelihood optimality and EM monotonicity are theorems of analysis (stationarity, Jensen) about whole data sets, not postconditions a solver can decide (DESIGN §6).",
@@ -19,7 +20,7 @@ for pid in sorted(CLAIMS):
         "evidence_file": f"/verif/evidence/{pid}.json",
         "replay_cmd_template": "./check-replay {path}",
         "engine": "govc",
-        "level_claimed": {"category": c["category"], "text": c["text"], "design_ref": c.get("design_ref", "DESIGN.md §4")},
+        "level_claimed": {"category": c["category"], "text": c["text"], "design_ref": "DESIGN.md §3 "+pid},
         "level_note": c["note"],
         "technique": c["technique"],
     })
